@@ -157,6 +157,12 @@ func ReadFromWebVTT(i io.Reader) (o *Subtitles, err error) {
 		case strings.HasPrefix(line, "NOTE "):
 			blockName = webvttBlockNameComment
 			comments = append(comments, strings.TrimPrefix(line, "NOTE "))
+		// Comment introduced by "NOTE" alone on its line or followed by a tab: the text, if any, follows
+		case line == "NOTE" || strings.HasPrefix(line, "NOTE\t"):
+			blockName = webvttBlockNameComment
+			if t := strings.TrimSpace(strings.TrimPrefix(line, "NOTE")); len(t) > 0 {
+				comments = append(comments, t)
+			}
 		// Empty line
 		case len(line) == 0:
 			// Reset block name, if we are not in the middle of CSS.
